@@ -280,13 +280,13 @@ class QfixedImp(float, Qtype):
         if not issubclass(tleft[0], Qtype):
             raise TypeErrorException(tleft[0], Qtype)
 
-        a = len(list(filter(lambda b: b is bool, tleft[1])))
-        b = len(list(filter(lambda b: b is bool, tright[1])))
+        def is_const(bits) -> bool:
+            return all(b in (true, false, True, False) for b in bits)
 
-        if a == 0 and issubclass(tleft[0], QintImp):
+        if issubclass(tleft[0], QintImp) and is_const(tleft[1]):
             tconst = tleft
             top = tright
-        elif b == 0 and issubclass(tright[0], QintImp):
+        elif issubclass(tright[0], QintImp) and is_const(tright[1]):
             top = tleft
             tconst = tright
         else:
